@@ -100,7 +100,13 @@ pub fn run_obs(op: &str, step: &Value, regs: &Regs, ctx: &mut Ctx, keys: &crate:
             }
             // hex() is an annotated dump: its hex digits, in order, are the encoding
             let digits: String = hexs.lines().map(|l| l.split('#').next().unwrap_or("")).collect::<String>().chars().filter(|c| c.is_ascii_hexdigit()).collect();
-            if digits != hx(&e.tagged_cbor().to_cbor_data()) {
+            // (a text string with line breaks continues its comment on the following lines: such dumps are
+            // compared through the plain form only)
+            let every_line_commented = hexs.lines().all(|l| l.contains('#'));
+            if e.hex_opt(false, None) != hx(&e.tagged_cbor().to_cbor_data()) {
+                return Err("#variant:format# hex_opt(false) is not the encoding".into());
+            }
+            if every_line_commented && digits != hx(&e.tagged_cbor().to_cbor_data()) {
                 return Err("#variant:format# the hex digits of hex() are not the encoding".into());
             }
             let back = Envelope::from_ur_string(&ur).map_err(|x| format!("UR does not parse back: {}", x))?;
